@@ -1910,7 +1910,12 @@ fn gen_scripts(r: &mut Rng, thorough: bool) -> Vec<Script> {
         if ep == 5 {
             ws[0].kind = 'r';
         }
-        push(&mut v, Script { idx: String::new(), ep, buf: small, rt: 2, chunk: 65536, stall_at: 0, stall_ms: 450, fault: fault_for(ep, r), opt: Default::default(), ws });
+        // (servers: followed by a second connection to the same server instance)
+        let mut opt = std::collections::BTreeMap::new();
+        if ep == 3 || ep == 4 {
+            opt.insert("conns".to_string(), 2u64);
+        }
+        push(&mut v, Script { idx: String::new(), ep, buf: small, rt: 2, chunk: 65536, stall_at: 0, stall_ms: 450, fault: fault_for(ep, r), opt, ws });
         // 5. the fault after some whole frames went through
         let mut ws: Vec<Wr> = (0..3).map(|_| Wr { kind: kinds_for(ep, r), size: pick_size(r, 3000), qlen: 0, ..Default::default() }).collect();
         ws.extend((0..3).map(|_| Wr { kind: kinds_for(ep, r), size: 300000 + r.below(400000) as usize, qlen: 0, ..Default::default() }));
@@ -2025,6 +2030,9 @@ fn gen_scripts(r: &mut Rng, thorough: bool) -> Vec<Script> {
                 ws.push(Wr { hb: 3, ..w0('o', 100) });
                 ws.push(Wr { hb: 4, ..w0('o', 100) });
                 ws.push(w0('B', 9000));
+                // pushes and a response above the assumed peer limit set below
+                ws.push(w0('p', 30000));
+                ws.push(w0('B', 25000));
             }
             ws.push(w0('r', 131073));
             // the panicking inline handler comes last but one: it ends a TCP connection
@@ -2036,6 +2044,7 @@ fn gen_scripts(r: &mut Rng, thorough: bool) -> Vec<Script> {
                 opt.insert("cap".to_string(), *r.pick(&[1u64, 4]));
                 opt.insert("via".to_string(), r.below(2));
                 opt.insert("off".to_string(), *r.pick(&[0u64, 2]));
+                opt.insert("lim".to_string(), 20000 + r.below(4000));
             }
             if ep == 3 {
                 opt.insert("nd".to_string(), 0);
